@@ -29,7 +29,7 @@ def run_check(prop, tier, seed):
         return 2
     spec = reg[prop]
     ctx = Ctx(prop, tier, seed)
-    ok, msg, dt = common.lake_build()
+    ok, msg, dt = common.lake_build(["SPModel", "spdrv"] + common.property_index().get(prop, {}).get("modules", []))
     build_broken = not ok
     if build_broken:
         ctx.notes.append("lake build failed: " + msg[-800:])
